@@ -92,8 +92,11 @@ class PathFacts:
                         if e[0] == "stmt" and isinstance(n, ast.Return) and c.func.attr in table_methods:
                             self.delegate = c.func.attr
                         elif c.func.attr not in table_methods and helper_depth > 0:
-                            for code in helper_reply_codes(p, methods[c.func.attr], c, conn, helper_depth - 1):
+                            codes, hret = helper_summary(p, methods[c.func.attr], c, conn, helper_depth - 1)
+                            for code in codes:
                                 self.replies.append((code, c))
+                            if e[0] == "stmt" and isinstance(n, ast.Return) and (n.value is c or (isinstance(n.value, ast.Await) and n.value.value is c)):
+                                self._helper_ret = hret
                 if isinstance(c, ast.Attribute) and c.attr == "path_io":
                     self.backend_nodes.append(n)
                     if any((code or "")[:1] in ("2", "3") for code, _ in self.replies) and self.backend_after_success is None:
@@ -101,7 +104,9 @@ class PathFacts:
         self.ret = None
         if out[0] == "return":
             v = out[1]
-            if isinstance(v, ast.Constant):
+            if getattr(self, "_helper_ret", "?") in (True, False):
+                self.ret = self._helper_ret
+            elif isinstance(v, ast.Constant):
                 self.ret = v.value
             elif isinstance(v, ast.Name) and v.id in env and env[v.id] is not None:
                 self.ret = env[v.id]
@@ -113,6 +118,19 @@ class PathFacts:
                 self.ret = "expr:" + src(v)
         self.kind = out[0]
         self.raised = out[1] if out[0] == "raise" else None
+
+
+def helper_summary(p, helper, call, conn, depth):
+    """(reply codes, return constant or None) of a non-handler helper method called with the session as an argument:
+    the same codes / the same constant on every normal path, else ([None], None) = unknown"""
+    codes = helper_reply_codes(p, helper, call, conn, depth)
+    rets = set()
+    for ev, out in enum_paths(p, helper):
+        if out[0] == "return" and isinstance(out[1], ast.Constant):
+            rets.add(out[1].value)
+        elif out[0] in ("return", "fall"):
+            rets.add("?")
+    return codes, (next(iter(rets)) if len(rets) == 1 and "?" not in rets else None)
 
 
 def helper_reply_codes(p, helper, call, conn, depth):
